@@ -119,6 +119,14 @@ def gen(rng: Any, prop: str, tier: str) -> dict[str, Any]:
             if open_txn[sid]:
                 mine_in_txn[sid].append((t, ids[0]))
             continue
+        if kind == "insert" and rng.random() < 0.15:
+            # the same rows through executemany (one engine statement per parameter row)
+            t = rng.choice(tables[sid])
+            ids = [fresh() for _ in range(rng.choice([1, 2, 3]))]
+            ops.append({"s": sid, "k": "executemany", "cur": cur, "merge": True, "sql": f"INSERT INTO {t} VALUES (%s, %s)", "seqparams": [[i, sid] for i in ids], "w": {"table": t, "ids": ids}})
+            if open_txn[sid]:
+                mine_in_txn[sid].extend((t, i) for i in ids)
+            continue
         if kind == "insert":
             t = rng.choice(tables[sid])
             ids = [fresh() for _ in range(rng.choice([1, 1, 2, 3]))]
@@ -229,10 +237,11 @@ def check_history(history: list[dict[str, Any]], probes: dict[str, int]) -> dict
                 if not op.get("merge") and out.get("rows") != [[len(op["w"]["ids"])]]:
                     return v_("insert-count", "INSERT status row", brief(h))
                 tx = cur
-                if tx is None:
-                    tx = {"s": sid, "begin": h, "rows": {}, "deleted": set(), "end": h, "state": "committed", "auto": True}
-                    txns.append(tx)
-                for i in op["w"]["ids"]:
+                for n, i in enumerate(op["w"]["ids"]):
+                    if cur is None and (tx is None or (n > 0 and op["k"] == "executemany")):
+                        # autocommit: one transaction per statement - executemany is one statement per parameter row
+                        tx = {"s": sid, "begin": h, "rows": {}, "deleted": set(), "end": h, "state": "committed", "auto": True}
+                        txns.append(tx)
                     tx["rows"][i] = {"table": op["w"]["table"], "h": h}
                     row_txn[i] = tx
             elif "ddl" in op:
